@@ -322,6 +322,7 @@ def run(ctx, F, rule="E-RAW"):
     check_remove_wraps(ctx, F)
     check_probe_exits(ctx, F)
     check_rehash(ctx, F)
+    check_len_inventory(ctx, F)
 
 
 def check_slot_clone(ctx, F, rule="E-RAW.clone"):
@@ -636,4 +637,70 @@ def check_rehash(ctx, F, rule="E-RAW.rehash"):
         ctx.ob(rule + ".step", "%s.step:%s" % (rule, nm), ok,
                "%s (%s): %s" % (nm, F.where(fs[0]), "the probe advances by (index + 1) & mask" if ok else
                                 "the probe index is not advanced by exactly one slot modulo the table size (strides found: %r)" % (steps,)))
+    return n
+
+
+LEN_WRITERS = {
+    # function -> deltas it applies to a `len` counter (the table's or an iterator's remaining count)
+    "Iter<'a, T, S> as core::iter::Iterator>::next": ["-1"],
+    "IterMut<'a, T, S> as core::iter::Iterator>::next": ["-1"],
+    "IntoIter<T, S, A> as core::iter::Iterator>::next": ["-1"],
+    "IntoIter<T, S, A> as core::ops::Drop>::drop": ["-1"],
+    "Drain<'_, T, S> as core::iter::Iterator>::next": ["-1"],
+    "Drain<'_, T, S> as core::ops::Drop>::drop": ["-1"],
+    "RawTable<T, S, A>>::clear": ["-1"],
+    "RawTable<T, S, A>>::clear_no_drop": ["-1"],
+    "RawTable<T, S, A>>::drain": ["=0"],
+    "RawTable<T, S, A>>::insert_in_slot_unchecked": ["+1"],
+    "RawTable<T, S, A>>::remove_at_slot_unchecked": ["-1"],
+    "RawTable<T, S, A>>::reset_no_drop": ["=0"],
+    "RawTable<T, S, A>>::retain": ["-1"],
+}
+
+
+def len_writes(m, B):
+    out = []
+    for i in sorted(B.reach):
+        b = m["blocks"][i]
+        if b["c"]:
+            continue
+        for s in b["s"]:
+            lhs = s.get("lhs")
+            if isinstance(lhs, dict) and lhs.get("p") and str(lhs["p"][-1]).startswith(".len@linear_hashtbl::raw::"):
+                rv = s["rv"]
+                kind = "=expr"
+                if rv["k"] == "bin" and rv["o"] in ("Add", "Sub", "AddWithOverflow", "SubWithOverflow") and cfg.const_int(rv["b"]) == 1:
+                    kind = "+1" if rv["o"].startswith("Add") else "-1"
+                elif rv["k"] == "use" and cfg.const_int(rv["op"]) == 0:
+                    kind = "=0"
+                out.append(kind)
+    return sorted(out)
+
+
+def check_len_inventory(ctx, F, rule="E-RAW.len"):
+    """`len` (the table's element count and the iterators' remaining counts) is what `len()`, `reserve()`'s capacity
+    computation and the termination of draining loops rest on.  Inventory of its writers: insertion is the only +1,
+    every removal / yielded element a -1, drain / reset the only assignments of 0 -- the direction of each update is
+    frozen per function."""
+    seen = {}
+    for fid, m in sorted(F.mir.items()):
+        if not fid.startswith("linear_hashtbl::raw::") or "::test::" in fid or "{closure" in fid:
+            continue
+        w = len_writes(m, cfg.Body(m))
+        if w:
+            seen[short(F, fid)] = (w, fid)
+    n = 0
+    for name, (w, fid) in sorted(seen.items()):
+        n += 1
+        exp = LEN_WRITERS.get(name)
+        ok = exp is not None and sorted(exp) == w
+        ctx.ob(rule, "%s:%s" % (rule, name), ok,
+               "%s (%s): %s" % (name, F.where(fid), "updates len by %s as reviewed" % w if ok else
+                                "updates the element count by %s, reviewed: %s -- a count that moves the wrong way makes len() lie, "
+                                "lets draining loops run past the elements and skews the growth decision of reserve()"
+                                % (w, exp if exp is not None else "no write in this function")))
+    for name, exp in sorted(LEN_WRITERS.items()):
+        if name not in seen:
+            n += 1
+            ctx.ob(rule, "%s:%s" % (rule, name), False, "%s no longer updates the element count (expected %s)" % (name, exp))
     return n
